@@ -32,15 +32,17 @@ CLAIMED["C14"] = dict(
     design="§5 C14")
 CLAIMED["C15"] = dict(
     text="Lean 4 model of jsonpatch.hpp apply_patch (definite_path, insert-else-replace fallback, undo log, unwinder that stops at the first failing "
-         "undo) and from_diff; proved: every failing operation that logged nothing leaves the document untouched (hence atomicity at the first "
-         "failure), malformed/unknown operations are rejected, test is pure, root targets log a restoring undo. RFC 6902 conformance, atomicity "
-         "at every position and the diff law are decided per case by the correspondence run against the Lean RFC 6902 Spec and by the oracle on "
-         "the real outputs (partial proof: the inversion lemmas for the undo log are not yet proved).",
-    note="Partial: general atomicity (failure after k > 0 successful operations), refinement to the Spec and the diff law are validated by "
-         "differential testing against the executable Lean Spec, not proved. Trusted: model, harness, generators. Known finding D18 (ojson test "
-         "is member-order sensitive) is listed in known_findings.json.",
-    technique="Lean 4 theorems (failure leaves document, rejection) + correspondence vs executable Lean RFC 6902 Spec",
-    design="§5 C15")
+         "undo) and from_diff, tied to the real code by correspondence. Proved for ALL documents and patches: ATOMICITY - if any operation fails, "
+         "however many succeeded before it (all six operations, '-', array shifting, root targets, move failing in its second half), the document is "
+         "restored: exactly for jsoncons::json under its representation invariant (apply_atomic_sorted), up to member order for ojson with unique "
+         "keys (apply_atomic_ordered; exact equality is false there - kernel-checked witness - because the undo of remove re-appends the member), "
+         "exactly for both whenever the patch has no remove/move (apply_atomic_no_removal); every operation, failed or not, is inverted by the undo "
+         "entries it logs (undo_inverts_op); malformed/unknown operations are rejected, test is pure. RFC 6902 conformance and the diff law are "
+         "decided per case by the correspondence run against the Lean RFC 6902 Spec and by the oracle on the real outputs.",
+    note="Partial: refinement to the RFC 6902 Spec and the diff law are validated by differential testing against the executable Lean Spec, not proved. "
+         "Atomicity under allocation failure is outside the model (D66, known). Known finding D18 (ojson test is member-order sensitive) is listed.",
+    technique="Lean 4 theorems (general atomicity via undo-log inversion, rejection, purity of test) + correspondence vs executable Lean RFC 6902 Spec",
+    design="§5 C15, §9.2")
 
 CLAIMED["C04"] = dict(
     text="Lean 4 proofs about step-for-step models (64-bit wrap-around explicit) of dec_to_integer, from_integer, the parser's integer "
@@ -83,12 +85,16 @@ CLAIMED["C02"] = dict(
          "every piece) and outcome by outcome (error code + event sequence) under whole / byte-by-byte / random chunkings. Proved for all inputs: "
          "the model's UTF-8 validator accepts exactly RFC 3629 well-formed strings; its number sub-automaton accepts exactly the RFC 8259 number "
          "production (both directions, against the reference parser's parseNumber); a number text is accepted as one event carrying the literal; "
-         "the nesting level of a non-failed parser never exceeds max_nesting_depth and the limit test is exact. The parser's case tables, error "
+         "the nesting level of a non-failed parser never exceeds max_nesting_depth and the limit test is exact; COMPLETENESS for whole documents: every text the RFC 8259 "
+         "reference parser reads as value v (any nesting up to the limit, any white space incl. CR delays, every escape and surrogate pair) is accepted "
+         "by the model with exactly the events of v (parse_complete, by forward simulation over the reference's recursion); SOUNDNESS for "
+         "documents whose root is a literal, a number or a string without \\u escapes (parse_exact_scalars). The parser's case tables, error "
          "codes, state enumerations, digit and UTF-8 tables are regenerated from the source on every run and proved equal to the RFC character "
          "classes (C02X, decide). Accept/reject and value of the real parser are additionally judged on every run against the Lean RFC 8259 "
          "reference parser: bounded-exhaustive token strings, generated+mutated documents, every comment/comma placement, depth limit-1/limit/limit+1.",
-    note="Partial: the refinement 'model accepts text t with value v iff the RFC 8259 grammar derives v from t' is proved for the number and UTF-8 "
-         "layers only; for whole documents it is decided per case (real parser = model = reference on every generated input). wchar_t is not "
+    note="Partial: soundness (model accepts => the grammar derives the text) is proved only for scalar roots; for arrays/objects and strings with \\u escapes it "
+         "is decided per case (real parser = model = reference on every generated input); the model accepts two surrogate anomalies the reference gives "
+         "no value (a lone low surrogate escape is dropped; a high surrogate followed by any \\uXXXX is combined) - kernel-checked witnesses in Props/C02, the property assigns them no value. wchar_t is not "
          "exercised. D80 (block comment ending in **/) was found while building the model and fixed; known finding D22 is listed.",
     technique="Lean 4 theorems about a state-machine model of json_parser.hpp (UTF-8 validator = RFC 3629, number automaton = RFC 8259, depth bound) "
               "+ state-level correspondence through a guarded hook + extracted tables (decide) + Lean RFC 8259 reference parser as oracle",
@@ -109,15 +115,20 @@ CLAIMED["C03"] = dict(
     design="§5 C03, §9.2")
 
 CLAIMED["C06"] = dict(
-    text="Lean 4 proof that the CBOR encoder model (byte-exact tie to encode_cbor on every run) writes, for every value of the data-model core "
-         "(null, bool, all int64/uint64, doubles incl. the float32-when-exact shortcut, UTF-8 text, byte strings, arrays, maps, any nesting), bytes "
-         "that the RFC 8949 reference decoder reads back as exactly that value; all width boundaries are inside the case split. Tags, string "
-         "packing, typed arrays and the MessagePack/UBJSON/BSON round trips under their documented mappings are decided per case on the real code "
-         "(boundary-directed values, stringref threshold documents, every length boundary).",
-    note="Partial: only CBOR's core is proved; doubles in the binary32-subnormal exponent band carry the side condition DoubleOK (checked per case). "
-         "Other formats and all tag handling are validated by differential round-trip testing. D26 (stringref vs bignums) found and fixed.",
-    technique="Lean 4 theorem (CBOR encode/decode round trip on the core) + byte-exact correspondence + round-trip oracle",
-    design="§5 C06")
+    text="Lean 4 proofs that the encoder models of CBOR, MessagePack and UBJSON (each tied BYTE FOR BYTE to encode_cbor / encode_msgpack / "
+         "encode_ubjson on every run, every width boundary +-1 included) write, for every value of the data-model core (null, bool, all int64/uint64 "
+         "- UBJSON: up to 2^63-1, above that the encoder refuses and so does the model -, doubles incl. the float32-when-exact shortcut, UTF-8 text, "
+         "byte strings, arrays, maps, any nesting), bytes that the format's reference decoder (RFC 8949 / MessagePack spec / UBJSON draft 12, the same "
+         "ones the real decoders are judged against in C07) reads back as exactly that value under the documented mapping (UBJSON byte strings come "
+         "back as arrays of integers); all integer and length width boundaries are inside the case splits (cbor_roundtrip, msgpack_roundtrip, "
+         "ubjson_roundtrip and the per-head lemmas). CBOR big floats: text/bytes round trip for every mantissa and exponent. Tags, string packing, "
+         "typed arrays, bignum magnitudes on both sides of every length-header boundary and the BSON round trip are decided per case on the real code.",
+    note="Partial: BSON and all tag handling are validated by differential round-trip testing only; doubles in the binary32-subnormal exponent band "
+         "carry the side condition DoubleOK (checked per case); MessagePack lengths >= 2^32 are outside OKm (the encoder writes no head there; "
+         "unreachable in practice). D26 (stringref vs bignums), D79 (bigfloat with bignum mantissa) found and fixed.",
+    technique="Lean 4 theorems (encode/decode round trip for CBOR, MessagePack, UBJSON on the core, all values) + byte-exact correspondence of the three "
+              "encoder models + round-trip oracle",
+    design="§5 C06, §9.2")
 CLAIMED["C07"] = dict(
     text="The real CBOR, MessagePack, UBJSON and BSON decoders are compared on every run with reference decoders written in Lean 4 from the "
          "specifications, on outputs of independent reference encoders in every legal width and form, mutations, every strict prefix and every 1-2 "
